@@ -512,3 +512,141 @@ package kafka
 //@   modifies heap
 //@   callsite (*Client).Produce requires typeis($2.Records, "*kafka.writerRecords") && deref($2.Records, "writerRecords").index == 0
 //@   callsite (*Client).Produce requires same(deref($2.Records, "writerRecords").msgs, batch.msgs)
+
+//@ property C17 C02 C11
+
+// ---- legacy stream readers (read.go, discard.go): budget accounting ----
+// Every primitive takes the remaining byte budget sz of the enclosing frame and returns the new budget. racct says that the
+// budget never grows, never goes negative, and that the bytes taken from the bufio.Reader (ghost position $rpos) are exactly
+// the bytes charged to the budget. A response cut at any byte therefore surfaces as an error of the primitive that hit the
+// cut while the budget still equals the unread part of the frame (C17), which is what lets the caller drain it (C11).
+//@ spec racct(r any, sz int, rem int) bool
+//@   macro
+//@   def rem <= sz && (sz >= 0 ==> rem >= 0) && r.$rpos == old(r.$rpos) + (sz - rem)
+
+//@ func makeInt8
+//@   inline
+//@ func makeInt16
+//@   inline
+//@ func makeInt32
+//@   inline
+//@ func makeInt64
+//@   inline
+//@ func peekRead
+//@   inline
+
+//@ func discardN
+//@   modifies r.$rpos
+//@   ensures racct(r, sz, result0)
+//@   ensures result1 == nil ==> n <= sz && n >= 0 && result0 == sz - n
+//@ func discardInt32
+//@   modifies r.$rpos
+//@   ensures racct(r, sz, result0)
+//@   ensures result1 == nil ==> result0 == sz - 4
+//@ func readInt8
+//@   modifies *v, r.$rpos
+//@   ensures racct(r, sz, result0)
+//@   ensures result1 == nil ==> result0 == sz - 1
+//@ func readInt16
+//@   modifies *v, r.$rpos
+//@   ensures racct(r, sz, result0)
+//@   ensures result1 == nil ==> result0 == sz - 2
+//@ func readInt32
+//@   modifies *v, r.$rpos
+//@   ensures racct(r, sz, result0)
+//@   ensures result1 == nil ==> result0 == sz - 4
+//@ func readInt64
+//@   modifies *v, r.$rpos
+//@   ensures racct(r, sz, result0)
+//@   ensures result1 == nil ==> result0 == sz - 8
+//@ func readBool
+//@   modifies *v, r.$rpos
+//@   ensures racct(r, sz, result0)
+//@   ensures result1 == nil ==> result0 == sz - 1
+//@ func readVarInt
+//@   requires sz >= 0
+//@   modifies *v, r.$rpos
+//@   ensures racct(r, $1, remain)
+//@   ensures err == nil ==> remain < $1
+//@   loop 0 invariant 0 <= sz && sz <= $1 && r.$rpos == old(r.$rpos) + ($1 - sz)
+//@ func readArrayLen
+//@   modifies *n, r.$rpos
+//@   ensures racct(r, $1, result0)
+//@   ensures result1 == nil ==> result0 == $1 - 4
+//@ func readNewBytes
+//@   requires 0 <= sz && sz <= 0xffffffffffff
+//@   option allocbound sz
+//@   modifies r.$rpos
+//@   ensures racct(r, $1, result1)
+//@   ensures result2 == nil ==> result1 == $1 - max($2, 0) && len(result0) == max($2, 0)
+//@ func readNewString
+//@   requires 0 <= sz && sz <= 0xffffffffffff
+//@   option allocbound sz
+//@   modifies r.$rpos
+//@   ensures racct(r, sz, result1)
+//@   ensures result2 == nil ==> result1 == sz - max(n, 0)
+
+// A readBytesFunc consumes the n bytes of a key or value (n < 0 encodes null: nothing to consume) out of the budget sz.
+//@ functype readBytesFunc
+//@   assume a key/value callback writes only variables captured by its closure, destination buffers owned by the Batch caller and the position of the reader it is handed; it never touches the messageSetReader
+//@   requires 0 <= $1 && $1 <= 0xffffffffffff
+//@   modifies $0.$rpos
+//@   ensures racct($0, $1, result0)
+//@   ensures result1 == nil ==> result0 == $1 - max($2, 0)
+
+//@ func readStringWith
+//@   requires 0 <= sz && sz <= 0xffffffffffff
+//@   modifies r.$rpos
+//@   ensures racct(r, $1, result0)
+//@ func readBytesWith
+//@   requires 0 <= sz && sz <= 0xffffffffffff
+//@   modifies r.$rpos
+//@   ensures racct(r, $1, result0)
+
+// the callbacks the package itself passes as key/value readers
+//@ func readString$1
+//@   option as readBytesFunc
+//@   option noframe
+//@ func readBytes$1
+//@   option as readBytesFunc
+//@   option noframe
+//@ func discardString$1
+//@   option as readBytesFunc
+//@   option noframe
+//@ func discardBytes$1
+//@   option as readBytesFunc
+//@   option noframe
+//@ func (*Batch).Read$1
+//@   option as readBytesFunc
+//@   option noframe
+//@ func (*Batch).Read$2
+//@   option as readBytesFunc
+//@   option noframe
+//@ func (*Batch).ReadMessage$1
+//@   option as readBytesFunc
+//@   option noframe
+//@ func (*Batch).ReadMessage$2
+//@   option as readBytesFunc
+//@   option noframe
+//@ func (*Batch).ReadMessage$3
+//@   option as readBytesFunc
+//@   option noframe
+//@ func (*Batch).ReadMessage$4
+//@   option as readBytesFunc
+//@   option noframe
+//@ func readString
+//@   requires 0 <= sz && sz <= 0xffffffffffff
+//@   modifies *v, r.$rpos
+//@   ensures racct(r, sz, result0)
+//@ func readBytes
+//@   requires 0 <= sz && sz <= 0xffffffffffff
+//@   modifies *v, r.$rpos
+//@   ensures racct(r, sz, result0)
+//@ func discardString
+//@   requires 0 <= sz && sz <= 0xffffffffffff
+//@   modifies r.$rpos
+//@   ensures racct(r, sz, result0)
+//@ func discardBytes
+//@   requires 0 <= sz && sz <= 0xffffffffffff
+//@   modifies r.$rpos
+//@   ensures racct(r, sz, result0)
